@@ -494,6 +494,9 @@ class CallMixin:
             return self.call_function(func.module, func.fn, args, kwargs, None, closure=func.closure if isinstance(func.closure, dict) else None)
         if isinstance(func, RefV):
             return self.call_ref(func, args, kwargs, module, node, env)
+        if isinstance(func, ObjV) and func.cls in self.repo.classes and self.repo.lookup_method(func.cls, "__call__") is not None:
+            # an instance of an in-repo class with __call__
+            return self.call_v(self.getattr_v(func, "__call__", module, node), args, kwargs, module, node, env)
         if isinstance(func, Sym):
             if func.op == "partial":
                 f0, a0, kw0 = func.args
@@ -699,15 +702,15 @@ class CallMixin:
                 if isinstance(av, (PyList, PyDict)):
                     obj.attrs[k] = Sym("collected", obj.label, k)
             return Sym("visit", obj.label, arg)
-        decos = getattr(b, "decorators", None)
-        if decos and not getattr(self, "_in_decorated", False):
-            self.event("decorated_call", func=name, decorators=decos)
-            return self.call_decorated(b.module, b.fn, [obj] + list(args), kwargs, b.cls)
         stub = getattr(self, "stub_methods", None)
         looked_up = getattr(b, "attr_name", name)
         if stub is not None and stub(looked_up) and len(self.stack) >= 1:
             self.event("stub_call", name=looked_up, cls=b.cls, args=list(args), kwargs=dict(kwargs))
             return Sym("stubcall", f"{b.cls}.{looked_up}", tuple(args))
+        decos = getattr(b, "decorators", None)
+        if decos and not getattr(self, "_in_decorated", False):
+            self.event("decorated_call", func=name, decorators=decos)
+            return self.call_decorated(b.module, b.fn, [obj] + list(args), kwargs, b.cls)
         args = self.flatten_stars(args)
         if any(isinstance(a, Sym) and a.op == "star" for a in args) and not self.stars_fit_vararg(b.fn, args, 1):
             self.event("star_call", func=name)
